@@ -37,6 +37,14 @@ def null_only_union(sub, occ: str) -> bool:
     return sum(1 for i in t["items"] if not sub.model.is_null(i)) == 1
 
 
+def int_or_null(t: dict) -> Optional[str]:
+    if t["kind"] == "or" and len(t["items"]) == 2 and all(i["kind"] == "base" for i in t["items"]):
+        names = sorted(i["name"] for i in t["items"])
+        if names in (["integer", "null"], ["null", "uinteger"]):
+            return "integer" if "integer" in names else "uinteger"
+    return None
+
+
 def edits_for(sub, p: dict) -> List[str]:
     m = sub.model
     t = p["type"]
@@ -46,6 +54,8 @@ def edits_for(sub, p: dict) -> List[str]:
     if t["kind"] == "base" and t["name"] in ("integer", "uinteger"):
         out.append("int-out-of-range")
         out.append("int-out-of-range-fraction")
+    if int_or_null(t):
+        out.append("int-out-of-range")   # `integer | null` is an integer property too
     if t["kind"] == "reference" and t["name"] in m.enums and not m.enum_open(t["name"], True):
         out.append("enum-outside")
     if t["kind"] == "stringLiteral":
@@ -86,7 +96,7 @@ def package_constants(sub) -> dict:
 def replacement(sub, p: dict, edit: str, sel: int) -> Any:
     t = p["type"]
     if edit == "int-out-of-range":
-        pool = OUT_INT if t["name"] == "integer" else OUT_UINT
+        pool = OUT_INT if (int_or_null(t) or t["name"]) == "integer" else OUT_UINT
         return pool[sel % len(pool)]
     if edit == "int-out-of-range-fraction":
         # numbers outside the range by less than one: cutting the fraction off would bring them inside
